@@ -311,7 +311,7 @@ def _evaluate(pid, d, res, results, tier):
                     seen_known[sig] = kf[0]["text"]
                 elif sig not in viol_sigs:
                     viol_sigs[sig] = (r, i, c, tr)
-        gh = [(i, c) for i, c in r["guards"] if c in GUARD_OWNERS.get(pid, ())]
+        gh = [(i, c) for i, c in r["guards"] if c in GUARD_OWNERS.get(pid, ()) and (c not in ENV_GATED_RULES or applicable)]
         # the local rules hold in every environment (lib/allguards.py validates them on all families): not gated
         if gh:
             key = gh[0][1]
@@ -354,6 +354,9 @@ def _evaluate(pid, d, res, results, tier):
     return res.finish()
 
 
+# rules that are claimed only inside the owning property's environment: 2076 (every term rests on a newer write) fails when the
+# acknowledgement of a Create arrives later than the record's life time (a store slower than the property allows)
+ENV_GATED_RULES = {2076}
 ALL_STORE_RULES = {2000, 2001, 2002, 2004, 2005, 2006, 2007, 2008, 2009, 2010, 2011, 2012, 2013, 2014, 2020, 2021, 2022, 2023, 2050, 2052, 2060, 2061}
 GUARD_OWNERS = {
     "C01": ALL_STORE_RULES, "C05": {2002, 2003, 2004}, "C10": {2005}, "C13": {2032, 2006, 2005}, "C09": {2030, 2040, 2041},
